@@ -35,11 +35,11 @@ type gvar struct {
 }
 
 type gfunc struct {
-	name    string
-	params  []T
-	nreq    int // required parameters
-	ret     T
-	level   int
+	name      string
+	params    []T
+	nreq      int // required parameters
+	ret       T
+	level     int
 	recursive bool
 }
 
@@ -61,20 +61,20 @@ const (
 
 // Gen is the program generator.
 type Gen struct {
-	R       Rng
-	Mix     Mix
-	budget  int
-	sc      *gscope
-	level   int // current function nesting level
-	loops   int // loop nesting inside the current function
-	nameN   int
-	inTern  bool
-	inTmpl  bool
-	funcs   []*gfunc
-	Feats   map[string]int // feature counts of the generated program
-	errRate int            // per-mille chance of a deliberately failing operation at a failure site
-	NoFail  bool
-	pending []Stmt
+	R          Rng
+	Mix        Mix
+	budget     int
+	sc         *gscope
+	level      int // current function nesting level
+	loops      int // loop nesting inside the current function
+	nameN      int
+	inTern     bool
+	inTmpl     bool
+	funcs      []*gfunc
+	Feats      map[string]int // feature counts of the generated program
+	errRate    int            // per-mille chance of a deliberately failing operation at a failure site
+	NoFail     bool
+	pending    []Stmt
 	generating map[string]bool // named functions whose body is being generated (not callable yet)
 }
 
